@@ -741,6 +741,140 @@ def r4(ctx):
               "states filtered on uow.states[s][0] == self.isdelete", ex.loc)
 
 
+# ---------------------------------------------------------------------- C31-R5 (who honours a cancelled action)
+EMITTERS = {"_delete_obj": "delete", "_save_obj": "save"}
+FLAG_NAMES = {0: "isdelete", 1: "listonly"}
+
+
+def _states_subscripts(nodes, pm):
+    """components of the `<uow>.states[<state>]` tuple read by the given AST nodes: {0}, {1} or {0, 1}"""
+    comps: Set[int] = set()
+    for root in nodes:
+        for n in ast.walk(root):
+            if isinstance(n, ast.Subscript) and (dotted(n.value) or "").rsplit(".", 1)[-1] == "states" and isinstance(n.ctx, ast.Load):
+                par = pm.get(n)
+                if isinstance(par, ast.Subscript) and par.value is n and isinstance(par.slice, ast.Constant) and par.slice.value in (0, 1):
+                    comps.add(par.slice.value)
+                else:
+                    comps |= {0, 1}
+    return comps
+
+
+def _slice_of(fnode, expr, depth=3):
+    """`expr` plus the values bound to the local names it uses (transitively): where the states passed on come from"""
+    binds: Dict[str, List[ast.AST]] = {}
+    for n, v, st in name_stores(fnode):
+        if v is not None:
+            binds.setdefault(n, []).append(v)
+    out, seen, frontier = [expr], set(), [expr]
+    for _ in range(depth):
+        nxt = []
+        for e in frontier:
+            for x in ast.walk(e):
+                if isinstance(x, ast.Name) and x.id in binds and x.id not in seen:
+                    seen.add(x.id)
+                    nxt.extend(binds[x.id])
+        out.extend(nxt)
+        frontier = nxt
+    return out
+
+
+@R.rule("C31-R5", floor=6, template="T-SIBLING/T-FLOW",
+        desc="an action cancelled during the flush stays cancelled: remove_state_actions() (row switch detected "
+             "while saving) flips only one component of uow.states[state]; every action that hands states to "
+             "persistence._delete_obj/_save_obj selects them, at execution time, on all components that can "
+             "change under it - the aggregate and the per-object (cycle) form of an action agree")
+def r5(ctx):
+    ix = ctx.index
+    uowcls = ix.cls(f"{UOW}::UOWTransaction")
+    pm = ix.module(UOW).parents()
+    # (1) the writer: which component(s) of uow.states[state] does cancelling an action change?
+    rsa = ctx.method(uowcls.key, "remove_state_actions")
+    ctx.functions_analysed.add(rsa.key)
+    from ..astutil import subscript_stores, lexical_guards, guard_atoms
+    stores = [(sub_, st) for d, sub_, st in subscript_stores(rsa.node) if d.rsplit(".", 1)[-1] == "states" and isinstance(st, ast.Assign)]
+    ctx.require(len(stores) == 1 and isinstance(stores[0][1].value, ast.Tuple) and len(stores[0][1].value.elts) == 2,
+                "remove_state_actions no longer assigns a 2-tuple to self.states[state] (unknown idiom)")
+    tup = stores[0][1].value
+    changed: Set[int] = set()
+    for i, e in enumerate(tup.elts):
+        srcs = _slice_of(rsa.node, e)
+        if _states_subscripts(srcs, pm) == {i} and not isinstance(e, ast.Constant):
+            continue  # component i is written back unchanged
+        changed.add(i)
+    ctx.require(changed, "remove_state_actions writes uow.states[state] back unchanged")
+    ctx.ok(f"{rsa.key}:changes[{','.join(FLAG_NAMES[i] for i in sorted(changed))}]",
+           f"writes ({', '.join(unparse(e) for e in tup.elts)}); unchanged: {[FLAG_NAMES[i] for i in (0, 1) if i not in changed]}", nontrivial=False)
+    # which kind of action can be cancelled: every call site is guarded by `is_deleted(<that state>)`
+    sites = _callers(ctx, [m.relpath for m in ix.all_modules() if m.relpath.startswith("orm/")], "remove_state_actions")
+    ctx.require(sites, "remove_state_actions is never called")
+    only_deleted = True
+    for f, c in sites:
+        ctx.functions_analysed.add(f.key)
+        atoms = guard_atoms(lexical_guards(f.module.parents(), c, stop=f.node))
+        arg = unparse(c.args[0]) if c.args else "?"
+        if not any(pol and a.endswith(f".is_deleted({arg})") for a, pol in atoms):
+            only_deleted = False
+    affected = {"delete"} if only_deleted else {"delete", "save"}
+    # (2) the shared selector compares the whole tuple
+    sfm = ctx.method(uowcls.key, "states_for_mapper_hierarchy")
+    ctx.functions_analysed.add(sfm.key)
+    flag_params = sfm.params[2:4]
+    whole = False
+    for n in walk_local(sfm.node):
+        if isinstance(n, ast.Compare) and len(n.ops) == 1 and isinstance(n.ops[0], ast.Eq):
+            sides = [n.left, n.comparators[0]]
+            if any(_states_subscripts([x], pm) == {0, 1} and isinstance(x, ast.Subscript) for x in sides):
+                other = [x for x in sides if not (isinstance(x, ast.Subscript) and _states_subscripts([x], pm))]
+                for o in other:
+                    vals = _slice_of(sfm.node, o)
+                    if any(isinstance(v, ast.Tuple) and [unparse(e) for e in v.elts] == flag_params for v in vals):
+                        whole = True
+    ctx.check(whole, f"{sfm.key}:selects-on-both-flags",
+              "states_for_mapper_hierarchy no longer selects states with uow.states[state] == (isdelete, listonly)",
+              "self.states[state] == (isdelete, listonly)", sfm.loc)
+    # (3) every emitter
+    n_emit = 0
+    for f in sorted(ix.all_functions(ix.module(UOW)), key=lambda x: x.node.lineno):
+        for c in calls_in(f.node):
+            short = (call_name(c) or "").rsplit(".", 1)[-1]
+            if short not in EMITTERS or f.cls is None:
+                continue
+            kind = EMITTERS[short]
+            ctx.functions_analysed.add(f.key)
+            ctx.require(len(c.args) >= 2, f"{f.key}: {short}() without a states argument")
+            n_emit += 1
+            key = f"{f.key}:{short}:states-selected-on[{'+'.join(FLAG_NAMES[i] for i in sorted(changed))}]"
+            sl = _slice_of(f.node, c.args[1])
+            problems = []
+            reads: Set[int] = set()
+            for e in sl:
+                for sc in calls_in(e):
+                    if (call_name(sc) or "").rsplit(".", 1)[-1] == sfm.name and len(sc.args) == 3 and whole:
+                        reads |= {0, 1}
+                        want = (kind == "delete", False)
+                        got = tuple(a.value if isinstance(a, ast.Constant) else None for a in sc.args[1:3])
+                        if None not in got and got != want:
+                            problems.append(f"selects states with (isdelete, listonly) == {got}, a {kind} action must take {want}")
+            reads |= _states_subscripts(sl, pm)
+            if kind not in affected:
+                ctx.ok(key, f"{kind} actions are never cancelled (remove_state_actions is only called for states with is_deleted()); reads {sorted(FLAG_NAMES[i] for i in reads)}")
+                if problems:
+                    ctx.violation(key + ":flags", "; ".join(problems), f.loc)
+                continue
+            missing = sorted(changed - reads)
+            if missing:
+                problems.append(
+                    f"{f.qualname} hands states to persistence.{short} selecting them "
+                    + (f"only on {[FLAG_NAMES[i] for i in sorted(reads)]} of uow.states[s]" if reads else "without consulting uow.states")
+                    + f", but a pending {kind} is cancelled by remove_state_actions() (row switch detected by the save that runs "
+                      f"before it) through {[FLAG_NAMES[i] for i in missing]}, which it never reads: the cancelled {kind} is still "
+                      f"emitted (the row just UPDATEd in place of the deleted object is DELETEd / the DELETE violates a foreign key "
+                      f"of rows that now reference the replacement); the sibling aggregate action selects on both flags")
+            ctx.check(not problems, key, "; ".join(problems), f"selected at execution time on {sorted(FLAG_NAMES[i] for i in reads)}", f.loc)
+    ctx.require(n_emit >= 4, f"only {n_emit} callers of persistence._save_obj/_delete_obj in unitofwork.py")
+
+
 # ---------------------------------------------------------------------- self-test battery
 O2M_PLAIN_OLD = "                    (child_deletes, parent_deletes),\n                    (before_delete, child_saves),\n"
 R.mutant("o2m-reverse-child-deletes-parent-deletes", DEP,
